@@ -100,7 +100,8 @@ def oracle(sc, res):
 
 def run(out, tier, rng, work):
     import items, scen, sprop
-    out.rule = ('real client facade against real server facade on two real stacks: object count x size = 1..255 bytes (single-frame DM16 up to 7, RTS/CTS above), sizes 1/2/4/8, signed/unsigned, raw/converted, 32-bit pointers, direct/spatial, seed/key on/off with boundary seeds, 1..4 transactions back to back on the same or different objects, latencies (0, 5 ms]; oracle: read returns exactly the served bytes/values, write hands exactly the written bytes, the application is told command/address/pointer type/count/requester, all idle afterwards; item-level correspondence of conversion and layout functions; non-trivial = the client finished at least one operation')
+    out.rule = ('real client facade against real server facade on two real stacks: object count x size = 1..255 bytes (single-frame DM16 up to 7, RTS/CTS above), sizes 1/2/4/8, signed/unsigned, raw/converted, 32-bit pointers, direct/spatial, seed/key on/off with boundary seeds, 1..4 transactions back to back on the same or different objects, latencies (0, 5 ms]; oracle: read returns exactly the served bytes/values, write hands exactly the written bytes, the application is told command/address/pointer type/count/requester, all idle afterwards; item-level correspondence of conversion and layout functions; non-trivial = the client finished at least one operation'
+                ' 40 % of the multi-operation histories back to back (gap 0) under the pre-emptive wake schedule.')
     out.assumptions = ['A1-A6 of DESIGN.md section 3', 'the serving side (DM14Server + serving half of MemoryAccess + the CA subscriber list) is modelled as a state machine (theories/Dm14Srv.v) and tied to the code by operation-sequence correspondence; the client (Dm14Query) and the transport under ca.send_pgn are not: transactions end to end are run on the real code (testing)']
     out.extra['partial'] = ['the client side (Dm14Query) is modelled at the data level only; the end-to-end transaction (both sides idle afterwards, the application told command/address/count) is checked on the real code by the oracle; server side: T17.4/T17.5 proved on the state machine']
     C.std_proof_stage(out, 'C17', FILES)
